@@ -199,10 +199,18 @@ pub fn case_damage(scratch: &Path, meta: usize, id: &str, seed: u64, len: usize,
                 // header damage: length field or type byte
                 let fr = rng.pick(&live_frames).clone();
                 let c = content(fr.file);
-                let (a, b) = if rng.chance(1, 2) { (fr.off + 4, fr.off + 6) } else { (fr.off + 6, fr.off + 7) };
-                let old = &c[a as usize..b as usize];
-                ops.push(Op::Poke { file: fr.file, off: a, data: flip(&mut rng, old) });
-                class = "header";
+                if rng.chance(1, 3) {
+                    // a length that ends within a few bytes of the block end, on either side
+                    let room = BLOCK - (fr.off % BLOCK) - HEADER;
+                    let newlen = (room as i64 + rng.below(11) as i64 - 2).clamp(0, 65535) as u16;
+                    ops.push(Op::Poke { file: fr.file, off: fr.off + 4, data: newlen.to_le_bytes().to_vec() });
+                    class = "header.length_at_block_end";
+                } else {
+                    let (a, b) = if rng.chance(1, 2) { (fr.off + 4, fr.off + 6) } else { (fr.off + 6, fr.off + 7) };
+                    let old = &c[a as usize..b as usize];
+                    ops.push(Op::Poke { file: fr.file, off: a, data: flip(&mut rng, old) });
+                    class = "header";
+                }
             } else if k < 8 {
                 // a range of zeros or garbage, up to 3 blocks
                 let f = *rng.pick(&files);
